@@ -39,8 +39,8 @@ Print Assumptions C18_framed_in_order_partial.
    Content-Length -> the stream does not read back (the first body never ends). *)
 Definition d21b_conn : list (req * app) :=
   let q := {| r_v11 := false; r_conn := Some (bs "keep-alive"); r_ok := true |} in
-  [(q, {| a_status := bs "200 OK"; a_headers := []; a_pieces := [bs "one"] |});
-   (q, {| a_status := bs "200 OK"; a_headers := []; a_pieces := [bs "two"] |})].
+  [(q, {| a_status := bs "200 OK"; a_headers := []; a_pieces := [bs "one"]; a_first := None |});
+   (q, {| a_status := bs "200 OK"; a_headers := []; a_pieces := [bs "two"]; a_first := None |})].
 Theorem C18_http10_keepalive_unframed_refuted :
   exists date conn out cl,
     wf_date date = true /\ wf_conn conn = true /\ serve date None conn = Ok (out, cl) /\ cl = false /\
@@ -56,10 +56,24 @@ Print Assumptions C18_http10_keepalive_unframed_refuted.
 (* The stream never depends on whether the Responder was freshly created or is
    being reused after an earlier response (the D21 repair), for ALL inputs. *)
 Theorem C18_reuse_equals_fresh : forall date conn r,
-  (forall qa, In qa conn -> cl_ok (snd qa)) ->
+  (forall qa, In qa conn -> cl_ok (snd qa) /\ first_ok (snd qa) = true) ->
   serve date (Some r) conn = serve date None conn.
 Proof. intros. rewrite !serve_spec by assumption. reflexivity. Qed.
 Print Assumptions C18_reuse_equals_fresh.
+
+(* start_response called twice (PEP 3333 replacement with exc_info before anything was written): the
+   framing decision - and the whole stream - is a function of the LAST call only; whatever status,
+   headers or Content-Length the abandoned first call declared leaves no trace. *)
+Theorem C18_last_start_only : forall date conn rs,
+  (forall qa, In qa conn -> cl_ok (snd qa) /\ first_ok (snd qa) = true) ->
+  serve date rs conn = serve date rs (List.map forget_first conn).
+Proof. exact serve_forgets_first. Qed.
+Print Assumptions C18_last_start_only.
+
+(* the illegal second call - after the head went out - re-raises instead of replacing anything *)
+Theorem C18_late_start_reraises : forall r st hs, headed r = true -> start r st hs true = Exc OtherErr.
+Proof. intros r st hs H. unfold start. now rewrite H. Qed.
+Print Assumptions C18_late_start_reraises.
 
 (* The body never exceeds a declared Content-Length (no hypothesis on the app). *)
 Theorem C18_body_within_declared : forall date q a L,
@@ -100,14 +114,15 @@ Print Assumptions C18_closed_iff_not_persistent.
 Definition ex_conn : list (req * app) :=
   [({| r_v11 := true; r_conn := None; r_ok := true |},
     {| a_status := bs "200 OK"; a_headers := [(bs "Content-Type", bs "text/plain")];
-       a_pieces := [bs "hello "; []; bs "world"] |});
+       a_pieces := [bs "hello "; []; bs "world"];
+       a_first := Some (bs "200 OK", [(bs "Content-Length", bs "3")]) |});
    ({| r_v11 := false; r_conn := Some (bs "Keep-Alive"); r_ok := true |},
     {| a_status := bs "404 Not Found"; a_headers := [(bs "CONTENT-LENGTH", bs "4")];
-       a_pieces := [bs "ab"; bs "cdef"] |});
+       a_pieces := [bs "ab"; bs "cdef"]; a_first := None |});
    ({| r_v11 := true; r_conn := Some (bs "close"); r_ok := true |},
-    {| a_status := bs "200 OK"; a_headers := []; a_pieces := [] |});
+    {| a_status := bs "200 OK"; a_headers := []; a_pieces := []; a_first := None |});
    ({| r_v11 := true; r_conn := None; r_ok := true |},
-    {| a_status := bs "200 OK"; a_headers := []; a_pieces := [bs "never"] |})].
+    {| a_status := bs "200 OK"; a_headers := []; a_pieces := [bs "never"]; a_first := None |})].
 Example C18_example :
   wf_conn ex_conn = true /\ framed_conn ex_conn = true /\ closes ex_conn = true /\
   List.map (fun r => (p_framing r, p_body r)) (List.map (expected (bs "D")) (answered ex_conn))
